@@ -5,7 +5,7 @@
 
 package goproxytest
 
-//@ property C20: (*Server).handler, handler$1, allHex, readArchive$1, readArchive$1$1, (*Server).readModList, par/(*Cache).Do, par/(*Cache).Get
+//@ property C20: (*Server).handler, handler$1, allHex, readArchive$1, readArchive$1$1, (*Server).readModList, par/(*Cache).Do, par/(*Cache).Get, (*Server).readArchive
 //@ bounded C20: TestVerifBoundedPseudo
 
 // libraries the handler delegates to (assumed; see DESIGN section 5 C20)
@@ -58,9 +58,35 @@ package goproxytest
 //@   ensures r >= 0 && len(substr) == 2 ==> at(s, lo(s)+r) == at(substr, lo(substr)) && at(s, lo(s)+r+1) == at(substr, lo(substr)+1)
 //@   ensures len(substr) == 2 ==> forall Q {at(s,Q)} :: lo(s)+r < Q && Q + 2 <= hi(s) ==> !(at(s, Q) == at(substr, lo(substr)) && at(s, Q+1) == at(substr, lo(substr)+1))
 
-//@ func (*Server).readArchive
-//@   trusted
+// readArchive: the archive of path@vers is looked up under <dir>/<escaped path with / as _>_<escaped
+// version>, with .txtar and .txt appended for the two file forms; the cache key is that base
+// name, and what the cache returns is returned.
+//@ extern golang.org/x/mod/module.EscapePath(path) (escaped, err)
 //@   pure
+//@ extern golang.org/x/mod/module.EscapeVersion(v) (escaped, err)
+//@   pure
+//@ ghost var gEnc Str
+//@ ghost var gEncVers Str
+//@ ghost var gPrefix Str
+//@ ghost var gDoRes Int
+//@ func (*Server).readArchive
+//@   requires srv != nil
+//@   names (r)
+//@   assume_typeasserts
+//@   callee srv.logf(format, args) (): pure
+//@   modifies nothing
+//@   at call module.EscapePath#1: requires sameStr(path, my_path)
+//@   at call module.EscapePath#1: bind gEnc = escaped
+//@   at call module.EscapeVersion#1: requires sameStr(v, vers)
+//@   at call module.EscapeVersion#1: bind gEncVers = escaped
+//@   at call strings.ReplaceAll#1: requires sameStr(s, gEnc) && old == "/" && new == "_"
+//@   at call strings.ReplaceAll#1: bind gPrefix = r
+//@   at call filepath.Join#1: requires len(elem) == 2 && sameStr(at(elem, lo(elem)), srv.dir) && len(at(elem, lo(elem)+1)) == len(gPrefix) + 1 + len(gEncVers) && matchAt(at(elem, lo(elem)+1), lo(at(elem, lo(elem)+1)), gPrefix) && at(at(elem, lo(elem)+1), lo(at(elem, lo(elem)+1)) + len(gPrefix)) == '_' && matchAt(at(elem, lo(elem)+1), lo(at(elem, lo(elem)+1)) + len(gPrefix) + 1, gEncVers)
+//@   at call (*par.Cache).Do#1: requires unboxStr(key) == name && isClosure(f, "readArchive$1")
+//@   at call (*par.Cache).Do#1: requires len(txtName) == len(name) + 4 && matchAt(txtName, lo(txtName), name) && matchAt(txtName, lo(txtName) + len(name), ".txt")
+//@   at call (*par.Cache).Do#1: requires len(txtarName) == len(name) + 6 && matchAt(txtarName, lo(txtarName), name) && matchAt(txtarName, lo(txtarName) + len(name), ".txtar")
+//@   at call (*par.Cache).Do#1: bind gDoRes = r
+//@   ensures r != nil ==> r == unbox(gDoRes)
 //@ func (*Server).findHash
 //@   trusted
 //@   pure
